@@ -56,8 +56,12 @@ pub fn case_eco(rd: &mut Rd) -> R<String> {
         0,
     )
     .ok();
+    // what the query itself (this thread) asks of the allocator (C13)
+    crate::alloc::reset();
     let res: Result<String, ()> =
         catch_unwind(AssertUnwindSafe(|| show_res(&gamedig::games::eco::query_with_timeout(&ip, Some(port), &ts), |r| canon(r)))).map_err(|_| ());
+    let (maxreq, peak) = crate::alloc::stats();
+    crate::cases::SIDE.with(|s| s.borrow_mut().push_str(&format!("alloc={maxreq},{peak};")));
     stop.store(true, Ordering::SeqCst);
     let _ = h.join();
     Ok(res.unwrap_or_else(|_| "PANIC".into()))
